@@ -100,6 +100,10 @@ def gen_int(rng, width):
         return top
     if r < 0.40:
         return min(top, rng.choice([1, 9, 10, max(0, top - 1)]))
+    if r < 0.50 and width >= 2:
+        # negative numbers: the sign takes one of the `width` characters
+        low = -(10 ** (width - 1) - 1)
+        return rng.choice([-1, low, rng.randint(low, -1)])
     return rng.randint(0, top)
 
 
